@@ -3,7 +3,8 @@
 domain : histories of enter / leave (any order) of Terminal.map_fmmu(logical,
          write), of 2-3 map_fmmu calls entered concurrently (their
          configuration writes interleave on the bus), and of whole
-         SyncGroupBase.map_fmmu contexts of two groups sharing the terminal,
+         SyncGroupBase.map_fmmu contexts of two groups sharing the terminal
+         (with different or with the same logical addresses),
          on terminals with 1..4 FMMUs.
 oracle : invariant after every step over the slot each live mapping was given
          and the FMMU register blocks of the simulated terminal.
@@ -41,7 +42,8 @@ MIN_NONTRIVIAL = {"quick": 300, "thorough": 3000}
 op = st.one_of(
     st.builds(lambda w, l: {"op": "enter", "write": w, "logical": l},
               st.booleans(),
-              st.sampled_from([0x1000, 0x1800, 0x400000]) | st.integers(0, 2**31 - 1)),
+              st.sampled_from([0x1000, 0x1800, 0x400000, 0x10000, 0x10800])
+              | st.integers(0, 2**31 - 1)),
     st.builds(lambda items: {"op": "penter", "items": items},
               st.lists(st.builds(
                   lambda w, l: {"write": w, "logical": l}, st.booleans(),
@@ -65,6 +67,7 @@ def strategy(tier):
         "ops": st.lists(op, min_size=1, max_size=14),
         "init_real": st.booleans(),
         "sms": st.integers(2, 8),
+        "same_base": st.booleans(),
     })
 
 
@@ -222,7 +225,9 @@ def run_case(case):
                 kind = case["groups"][g]
                 maps = {}
                 wanted = []
-                base = 0x10000 * (g + 1)
+                # two groups may use the same logical addresses (their
+                # windows come from different masters)
+                base = 0x10000 * (1 if case.get("same_base") else g + 1)
                 if kind in ("out", "both"):
                     maps[SyncManager.OUT] = base + 0x800
                     wanted.append((base + 0x800, True))
@@ -249,11 +254,13 @@ def run_case(case):
                     cand = [s for s in range(n)
                             if block(term, s) == expected_block(lg, wr)
                             and t.fmmu_used[s] == lg]
-                    cand = [s for s in cand if s not in slots]
+                    cand = [s for s in cand if s not in slots
+                            and s not in slots_in_use()]
                     if not cand:
                         return (f"group mapping (logical {lg:#x}, write={wr})"
-                                f" is in no FMMU register block; table "
-                                f"{t.fmmu_used}")
+                                f" succeeded but has no FMMU of its own: "
+                                f"table {t.fmmu_used}, slots of the other "
+                                f"live mappings {slots_in_use()}")
                     slots.append(cand[0])
                 for s in slots:
                     if s in slots_in_use():
